@@ -79,6 +79,14 @@ Proof.
   intros r i _ Hi. exact Hi.
 Qed.
 
+(** the version entry is accepted only when it is, byte for byte, the library's MAJOR.MINOR *)
+Theorem version_accepted_iff file program : sig_ok (SigVersion file program) = true <-> file = program.
+Proof.
+  cbn [sig_ok]. revert program. induction file as [|x a IH]; intros [|y b]; cbn [bytes_eqb]; split; intros H; try discriminate; try reflexivity.
+  - apply andb_prop in H. destruct H as [H1 H2]. apply N.eqb_eq in H1. apply IH in H2. now subst.
+  - injection H as -> ->. rewrite N.eqb_refl. apply IH. reflexivity.
+Qed.
+
 (** spreading velocities: every index the constructor's loop reads lies inside the list *)
 Lemma group_reads_bound ridges : forall single idx i, In i (group_reads ridges single idx) ->
   if single then i = 0 else idx <= i < idx + sum_list ridges.
